@@ -208,7 +208,10 @@ Proof.
   { apply str_eqb_neq. intros E. destruct l as [|[c e] [|? ?]]; try discriminate E.
     cbn [eitem_text map fst] in E. injection E as ->. cbn [forallb] in Hwf. rewrite andb_true_r in Hwf.
     destruct e; [discriminate Es|discriminate Hwf]. }
-  now rewrite A, B, D.
+  assert (F : att_lt (TNone, eitem_text l) = false).
+  { unfold att_lt. destruct (eitem_text l) as [|c0 [|c2 r]]; try reflexivity.
+    cbn [has_char] in Hl. apply orb_false_iff in Hl as [Hc0 _]. rewrite Hc0. reflexivity. }
+  now rewrite A, B, D, F.
 Qed.
 
 (* ------------------------------------------------------------------ the statement *)
